@@ -29,3 +29,9 @@ add("C23", "exploration", "bounded-exhaustive enumeration of typed columns and e
 add("C09", "exploration", "bounded-exhaustive enumeration of variable-record write histories against a record bag",
     "every history of <=2 (thorough <=3) requests over a 16-symbol record alphabet (4 intervals incl. year edges x 4 sub-interval offsets incl. +1 ns and end-1 ns) for 1Sec/1Min/1H/1D, plus n identical records up to 20000 (compressibility axis); after each request the all-time query must return every record once, in time order, inside its interval and at most one resolution step early",
     TB + "; UTC; BackgroundSync=false", "seqmc")
+add("C11", "exploration", "exhaustive enumeration of (start,end) pairs over a boundary alphabet on stored fixtures, differential against the unrestricted query",
+    "6 stored histories (fixed/variable, 1Sec/1Min/1D, year edge, two records in one interval) x all ordered pairs over ~35-50 boundary instants (every stored timestamp, interval edges and midpoints, year edges, each +-1 ns, epoch 0, default end) incl. empty and inverted ranges; expected = unrestricted result filtered by the statement's definition",
+    TB + "; UTC", "seqmc")
+add("C12", "exploration", "bounded-exhaustive enumeration of ranges x N x direction, differential against the unlimited query",
+    "the C11 fixtures x 12 ranges (thorough: every 3rd start x every 2nd end) x N in 1..rows+2 x both directions; limited result must be the prefix/suffix of the unlimited result",
+    TB + "; UTC", "seqmc")
